@@ -118,7 +118,7 @@ def condensed_trace(out):
     end = blk.find("\n/\\ ", 5)
     return re.findall(r'op \|-> "(\w+)"', blk[:end if end > 0 else None])
 
-def replay_slice(module, cfg_template, consts, ezdrive, workers=None, nproc=None, timeout=1800, tag="slice", sample_every=9973):
+def replay_slice(module, cfg_template, consts, ezdrive, workers=None, nproc=None, timeout=1800, tag="slice", sample_every=9973, keep_mod=1):
     """TLC explores the bounded instance, checks its invariants/properties, and prints every transition
     (ACTION_CONSTRAINT Dump); the stream is split round-robin over nproc `ezdrive replay` processes that execute
     path+op on the real object and compare with the specification's post-state. Nothing is stored but failures."""
@@ -130,10 +130,11 @@ def replay_slice(module, cfg_template, consts, ezdrive, workers=None, nproc=None
     workers = workers or NCPU
     tlclog = os.path.join(work, "tlc.log")
     # bash pipeline: TLC | tee(non-edge lines -> log) | grep edges | split -> ezdrive replay
-    pipe = ("set -o pipefail; timeout %d tlc -noGenerateSpecTE -workers %d -metadir %s -config %s %s 2>&1 "
-            "| tee >(grep -v '^\"{' > %s) | grep '^\"{' | tee >(awk '(NR==5 || NR%%%d==77) && c<4 {print; c++}' > %s/samples.txt) "
-            "| split -n r/%d -u --filter='%s replay --dir %s/d.$FILE > %s/out.$FILE' - x"
-            % (timeout, workers, md, cfg, module, tlclog, sample_every, work, nproc, ezdrive, work, work))
+    keep = ("| awk 'NR %% %d == %d' " % (keep_mod, seed() % keep_mod)) if keep_mod > 1 else ""
+    pipe = ("set -o pipefail; timeout %d tlc -noGenerateSpecTE -workers %d -metadir %s -config %s %s 2>&1 " % (timeout, workers, md, cfg, module)
+            + "| tee >(grep -v '^\"{' > %s) | grep '^\"{' | tee >(awk '(NR==5 || NR%%%d==77) && c<4 {print; c++}' > %s/samples.txt) " % (tlclog, sample_every, work)
+            + keep
+            + "| split -n r/%d -u --filter='%s replay --dir %s/d.$FILE > %s/out.$FILE 2> %s/err.$FILE' - x" % (nproc, ezdrive, work, work, work))
     t0 = time.time()
     r = subprocess.run(["bash", "-c", pipe], cwd=SPEC, stdout=subprocess.PIPE, stderr=subprocess.STDOUT, text=True)
     wall = time.time() - t0
@@ -158,6 +159,12 @@ def replay_slice(module, cfg_template, consts, ezdrive, workers=None, nproc=None
         if not got_summary:
             raise Infra("replay process died (%s): %s" % (f, r.stdout[-500:]))
     shutil.rmtree(md, ignore_errors=True)
+    stderr_tail = ""
+    for f in sorted(glob.glob(os.path.join(work, "err.x*"))):
+        t = open(f, errors="replace").read()
+        if t.strip():
+            stderr_tail += t[:3000]
+            if len(stderr_tail) > 9000: break
     samples = []
     sp = os.path.join(work, "samples.txt")
     if os.path.exists(sp):
@@ -167,7 +174,7 @@ def replay_slice(module, cfg_template, consts, ezdrive, workers=None, nproc=None
                 samples.append({"history": [short_op(o) for o in c["path"]], "call": short_op(c["op"]), "expected_outcome": c.get("out")})
             except ValueError:
                 pass
-    res = {"tlc": summ, "samples": samples, "tlc_errors": errs, "tlc_out_tail": out[-3000:], "cases": cases, "fails": fails, "crashes": crashes,
+    res = {"tlc": summ, "samples": samples, "stderr": stderr_tail, "keep_mod": keep_mod, "tlc_errors": errs, "tlc_out_tail": out[-3000:], "cases": cases, "fails": fails, "crashes": crashes,
            "wall": wall, "trace_ops": condensed_trace(out), "rc": r.returncode, "pipe_out": r.stdout[-1000:]}
     if summ is None:
         raise Infra("TLC produced no summary for %s:\n%s\n%s" % (module, out[-2000:], r.stdout[-1000:]))
